@@ -444,6 +444,64 @@ def t_edit_update_roundtrip(E):
     E.refutable("scan.edit_update.roundtrip", E.eq(w2, w))
 
 
+@task("scan.edit_index.roundtrip", props=["C06"], functions=FUNCS)
+def t_edit_index_roundtrip(E):
+    """C06 for Scan.edit with IndexRequest: the real edit executed a SECOND time, on its own output, with its own backward
+    request and the (unchanged) arguments.  Slice idx is re-edited by the kernel's backward request at its old arguments, which
+    restores its view with the negated weight (C06 of the kernel, theory/gfi.py c06_for_callee); slice idx+1 is re-visited by an
+    empty update with the carry changed BACK.  Scan.edit_index drops the backward request of its own re-visit of slice idx+1
+    and re-visits it with another empty update, so the round trip needs - and this task ASSUMES of the kernel, recorded in the
+    evidence - that the kernel's empty update discards nothing (its backward constraint is the empty choice map): true of
+    distributions and of static functions over them, false of a kernel whose address structure depends on the carry."""
+    z3, T = E.z3, E.I.T
+    sc, kfn, init, xs, n = setup(E)
+    k = key(E)
+    old, inner, carry, ys = a_loop_trace(E, sc, kfn, init, xs, n)
+    idx = E.int("idx", conc=False)
+    E.assume(z3.And(idx.t >= 0, idx.t < n))
+    req = E.opaque("subrequest", "EditRequest")
+    ireq = E.new(CONCEPTS + ":IndexRequest", idx=idx, request=req)
+    ad = E.call(INC + ":Diff.no_change", (init, xs))
+    st, val = E.attempt(lambda: E.method(sc, "edit", k, old, ireq, ad))
+    if st != "ok":
+        return                      # (the documented assertion: obligation C12.Scan.edit_index.only_raises_its_documented_assertion)
+    new, w, rd, bwd = val
+    last = idx.t + 1 >= n
+    p0 = E.ctx.fn("proj_2_0", U, U)
+    a1 = (kfn.t, k.t, inner.at(idx.t).t, req.t,
+          E.I.to_u(E.call(INC + ":Diff.no_change", E.method(inner.at(idx.t), "get_args"))))
+    rd1 = T.edit_rd(*a1)
+    empty_update = update(E, UVal(T.EMPTY, "ChoiceMap"))
+    a2 = (kfn.t, k.t, inner.at(idx.t + 1).t, E.I.to_u(empty_update),
+          E.I.to_u((UVal(p0(rd1), "retdiff"), E.call(INC + ":Diff.no_change", x_at(E, xs, idx.t + 1)))))
+    # ASSUMED of the kernel (see the docstring): its empty update discards nothing
+    ubc = E.ctx.fn("update_bwd_constraint", U, U)
+    E.assume(ubc(T.edit_bwd(*a2)) == T.EMPTY)
+    k2 = key(E, "key2")
+    st2, val2 = E.attempt(lambda: E.method(sc, "edit", k2, new, bwd, ad))
+    if st2 != "ok":
+        E.prove("C06.Scan.edit_index.applying_the_backward_request_only_raises_the_documented_assertion", val2.kind == "AssertionError")
+        return
+    new2, w2 = val2[0], val2[1]
+    E.cover("scan.edit_index.roundtrip.reached")
+    ni2 = new2.fields["inner"]
+
+    def same_view(t, t0):
+        return z3.And(T.tr_choices(t) == T.tr_choices(t0), T.tr_score(t) == T.tr_score(t0), T.tr_retval(t) == T.tr_retval(t0),
+                      T.tr_args(t) == T.tr_args(t0))
+    E.prove("C06.Scan.edit_index.bwd_restores_the_edited_slice", same_view(ni2.at(idx.t).t, inner.at(idx.t).t))
+    E.prove("C06.Scan.edit_index.bwd_restores_the_revisited_next_slice",
+            E.Implies(z3.Not(last), same_view(ni2.at(idx.t + 1).t, inner.at(idx.t + 1).t)))
+    E.prove("C06.Scan.edit_index.bwd_leaves_every_other_slice_as_it_was", forall_i(
+        E, n, lambda i: E.Implies(z3.And(i != idx.t, i != idx.t + 1), E.eq(ni2.at(i), inner.at(i)))))
+    E.prove("C06.Scan.edit_index.bwd_weight_is_the_negated_weight", E.eq(w2, E.I.unaryop("USub", w)))
+    E.prove("C06.Scan.edit_index.bwd_restores_the_arguments", E.eq(E.method(new2, "get_args"), (init, xs)))
+    ret2 = E.method(new2, "get_retval")
+    E.prove("C06.Scan.edit_index.bwd_restores_the_final_carry", E.I.to_u(ret2[0]) == carry(n))
+    E.prove("C06.Scan.edit_index.bwd_restores_the_stacked_outputs", forall_i(E, n, lambda i: E.I.to_u(ret2[1].at(i)) == E.I.to_u(ys.at(i))))
+    E.refutable("scan.edit_index.roundtrip", E.eq(w2, w))
+
+
 def _edit_wf(E, r, kind):
     """C01: assess on the new trace's own choices and arguments re-runs the loop in lockstep"""
     z3 = E.z3
